@@ -119,6 +119,10 @@ class Check:
         dst = os.path.join(d, "found-%s%s" % (h, ext))
         if not os.path.exists(dst):
             open(dst, "wb").write(data)
+        # the replay header carries the explanation written by the engine
+        why = [l[2:] for l in data.decode(errors="replace").splitlines()[:12] if l.startswith("# ") and not l.startswith("# engine=") and not l.startswith("# perm=")]
+        if why:
+            msg = (msg + " :: " if msg and "see replay header" not in msg else "") + " / ".join(why)[:600]
         self.violations.append((dst, msg))
 
     # ---- tiers -----------------------------------------------------------------------
